@@ -53,7 +53,20 @@ def run_chunk(exe, start, count, params, recdir, args=(), timeout_s=60, env_extr
     env.pop("VSIM_REPLAY", None)
     if env_extra:
         env.update(env_extra)
-    return subprocess.Popen([exe] + list(args), env=env, stdout=subprocess.PIPE, stderr=subprocess.DEVNULL, text=True)
+    # The worker's result lines go to an unlinked temporary file, not a pipe: the runner only looks at a worker's output once
+    # it has exited, and a chunk of verbose results (thorough tiers) exceeds the 64 KiB a pipe holds -- worker and runner
+    # would wait for each other for ever.
+    outf = tempfile.TemporaryFile(mode="w+", dir=WORK)
+    pr = subprocess.Popen([exe] + list(args), env=env, stdout=outf, stderr=subprocess.DEVNULL, text=True)
+    pr._outf = outf
+    def communicate(timeout=None, _pr=pr):
+        _pr.wait(timeout)
+        _pr._outf.seek(0)
+        data = _pr._outf.read()
+        _pr._outf.close()
+        return data, None
+    pr.communicate = communicate
+    return pr
 
 
 def run_replay(exe, recfile, params=None, args=(), timeout_s=60):
